@@ -672,7 +672,7 @@ impl<'a> Run<'a> {
             }
             // C13 A: bounded delay of a woken child
             let n = (x.max_cap.max(x.held_count())) as u64;
-            let b = 4 * (g + 1) * (n + 2);
+            let b = (g + 1) * (n + 2) + 4;
             let seq = x.poll_seq;
             let mut late = None;
             let mut any_polled = false;
@@ -1360,15 +1360,18 @@ impl<'a> Run<'a> {
                     if self.subj.is_none() || self.abort {
                         break;
                     }
-                    let lim = 3 * (self.held() as usize + 2);
-                    let (got, fin) = self.exec(0, lim, true);
-                    if !got && !fin {
-                        // nothing came out: let the environment complete the oldest child
-                        if let Some(&id) = self.held_fut_ids().first() {
-                            self.complete(id);
+                    match self.poll(0) {
+                        Some(PollOut::Item(_)) | Some(PollOut::Done) => self.push(pl, PushHow::TryBack),
+                        Some(PollOut::Pending) => {
+                            if !w(|x| x.task_woken_since_poll_start(0)) {
+                                // the task would sleep now: let the environment complete the oldest child
+                                if let Some(&id) = self.held_fut_ids().first() {
+                                    self.complete(id);
+                                }
+                            }
                         }
+                        None => break,
                     }
-                    self.push(pl, PushHow::TryBack);
                 }
             }
         }
@@ -1735,6 +1738,17 @@ pub fn run_case(case: &Case, trace: bool, alloc_on: bool) -> CaseResult {
     w(|x| {
         x.subject_alive = true;
         x.active = true;
+        x.class = if s.is_collection() {
+            0
+        } else if s.is_merge() {
+            1
+        } else if s.is_adapter() {
+            2
+        } else if s == Subj::JA {
+            3
+        } else {
+            4
+        };
         x.ev(|| format!("=== {} cfg: cap={} ctor={} initial={} start_index={:#x} upstream={:?} hint={} repolls={}", s.name(), case.cfg.cap, case.cfg.ctor, case.cfg.initial.len(), case.cfg.start_index, case.cfg.upstream, case.cfg.up_hint, case.repolls));
     });
     let built = catch_unwind(AssertUnwindSafe(|| build(s, &case.cfg)));
